@@ -997,6 +997,52 @@ fn small_programs() -> Vec<(u16, Vec<u16>, bool, &'static str)> {
     ]
 }
 
+/// Breakpoints a power-of-two stride apart in a long straight-line program: add both (or declare
+/// them with `.break`), remove one, run into the other — a lookup structure keyed by part of the
+/// address (hash, bitmap, page) must not lose the survivor.
+fn stride_sessions(tag: &'static str) -> Vec<(DbgCase, &'static str)> {
+    let mut out = Vec::new();
+    let mut rng = Rng::new(0x57A1DE);
+    let n = 0x120usize;
+    let mut words = vec![0x1021u16; n];
+    words.push(0xF025);
+    for stride in [8usize, 16, 32, 64, 128, 256] {
+        for (a, variant) in [(5usize, 0), (5, 1), (0, 2), (17, 3)] {
+            let b = a + stride;
+            if b >= n {
+                continue;
+            }
+            let p = Prog { orig: 0x3000, words: words.clone(), inp: vec![], stack: false, minimal: true, kind: "straight-long" };
+            let mut c = decorate(&mut rng, &p, tag, vec![], 30_000);
+            c.labels.clear();
+            let at = |k: usize| Loc::Addr(0x3000 + k as u16);
+            let mut cmds = Vec::new();
+            match variant {
+                0 => {
+                    c.breaks = vec![];
+                    cmds.extend([Cmd::BreakAdd(at(a)), Cmd::BreakAdd(at(b)), Cmd::BreakRemove(at(a))]);
+                }
+                1 => {
+                    c.breaks = vec![a, b];
+                    cmds.push(Cmd::BreakRemove(at(a)));
+                }
+                2 => {
+                    c.breaks = vec![b];
+                    cmds.extend([Cmd::BreakAdd(at(a)), Cmd::BreakRemove(at(a)), Cmd::BreakAdd(at(b))]);
+                }
+                _ => {
+                    c.breaks = vec![a];
+                    cmds.extend([Cmd::BreakAdd(at(b)), Cmd::BreakRemove(at(b)), Cmd::BreakAdd(at(b)), Cmd::BreakRemove(at(a))]);
+                }
+            }
+            cmds.extend([Cmd::BreakList, Cmd::Continue, Cmd::Registers, Cmd::Continue, Cmd::Registers, Cmd::Exit]);
+            c.cmds = cmds;
+            out.push((c, "straight-long"));
+        }
+    }
+    out
+}
+
 /// Sessions on the straddling programs with a `.break` on every statement (so that predefined
 /// breakpoints exist at and beyond 0xFE00) probing add / remove / goto / move / list there.
 fn straddle_sessions(tag: &'static str) -> Vec<(DbgCase, &'static str)> {
@@ -1261,6 +1307,15 @@ pub fn run_prop(o: &crate::Opts, tag: &'static str) {
     let mut samples = Vec::new();
     if o.shard == 0 && tag != "D13" {
         for (c, kind) in directed(tag) {
+            let obs = run_debug(&mut cap, &c);
+            let v = if obs.line == "panic" { "-".to_string() } else { verdict(&mut cap, tag, &c, &obs) };
+            *kinds.entry(format!("directed-{}:{}", kind, obs.line.split(' ').next().unwrap_or(""))).or_default() += 1;
+            *verdicts.entry(v.clone()).or_default() += 1;
+            sink.put(&c.request(), &format!("{} | {}", obs.line, v));
+        }
+    }
+    if o.shard == 2 % o.nshards && (tag == "D10" || tag == "D11") {
+        for (c, kind) in stride_sessions(tag) {
             let obs = run_debug(&mut cap, &c);
             let v = if obs.line == "panic" { "-".to_string() } else { verdict(&mut cap, tag, &c, &obs) };
             *kinds.entry(format!("directed-{}:{}", kind, obs.line.split(' ').next().unwrap_or(""))).or_default() += 1;
